@@ -112,11 +112,15 @@ def scen_B1(cfg, tfmode, h, K, binary, prefix):
     return s
 
 
-def scen_B2(cfg, tfmode, h, K, T, binary, prefix, via):
+def scen_B2(cfg, tfmode, h, K, T, binary, prefix, via, used=False):
+    """used: the instance that loads the state is not fresh: it has run the first steps of the same history, the state is loaded
+    between two runs of the engine (as with `run; cv load; run` in an engine's script) and replaces what it had accumulated"""
     s = ctl.header(tfmode, extra="dt 1.0\ntemp 300.0" + ("\nenv COLVARS_BINARY_RESTART 1" if binary else "\nenv COLVARS_BINARY_RESTART 0"))
     s += "module\nconfig <<EOC\n%sEOC\n" % cfg
     if via == "file":
         s += "inprefix %s\ninit\n" % prefix
+    elif used:
+        s += "init\n" + "".join(step_lines(h, t) for t in range(0, min(3, K) + 1)) + "endrun\n" + via + "newrun\n"
     else:
         s += "init\n" + via  # loadstr / loadbuf text prepared by the caller
     s += "savestr\n"
@@ -209,6 +213,8 @@ def run(tier, replay):
             for K in kk:
                 jobs.append(dict(kind="B", fam=name, cfg=cfg, tfm=tfm, h=h, binary=binary, K=K, fi=fi,
                                  via=("file" if (K % 5 != 4 or tier == "quick" and binary) else ("str" if not binary else "buf"))))
+                if jobs[-1]["via"] != "file" and K % 10 == 9:
+                    jobs[-1]["used"] = True
 
     def do(job):
         wd = os.path.join(c.work, "%s_%d" % (job["fam"], int(job["binary"])))
@@ -232,7 +238,7 @@ def run(tier, replay):
         else:
             hx = [e for e in ev1 if e["ev"] == "savebuf"][-1]["hex"]
             v = "loadbuf " + hx + "\n"
-        r2, ev2, sp2 = common.run_esim("plain", scen_B2(job["cfg"], job["tfm"], job["h"], K, T, job["binary"], prefix, v),
+        r2, ev2, sp2 = common.run_esim("plain", scen_B2(job["cfg"], job["tfm"], job["h"], K, T, job["binary"], prefix, v, used=job.get("used", False)),
                                        wd, "B2_%d" % K, timeout=300)
         out = dict(r=r2, ev=ev2, sp=[sp1, sp2], ev1=ev1, stage="B2")
         if job["fam"] in STATE_WRITE_SIDE_EFFECT:
@@ -279,7 +285,7 @@ def run(tier, replay):
                                 "K=%d: an uninterrupted run that writes (and discards) a state after step K differs from one that does not: "
                                 "step %d: %s" % (K, e["it"], d), a["sp"] + a_plain["sp"])
                     break
-        via = job["via"]
+        via = job["via"] + ("+used_instance" if job.get("used") else "")
         key = "%s:%s:%s" % (fam, fmt, via)
         if not out["r"]["complete"]:
             if out["r"]["sig"] or out["r"]["timeout"]:
